@@ -19,15 +19,18 @@ def route(case):
     if case.startswith("W "):
         return "radius"
     return "aaa_race" if case.startswith("Sr ") else "aaa"
-# Model variants: "repaired" = /repo HEAD plus ordered per-session delivery of the provider calls (the one finding still
-# open, no patch); "head" = /repo HEAD.  Everything else is fixed in /repo (7e92d8e, e0693a6, d70a5ae, 9b87063, d95fed1,
-# 7faf7f9): a regression to any of those matches neither variant and is reported as a VIOLATION.
-VARIANTS = ["repaired", "head"]
+# Model variants v<s><o><l><p><g> (fix_sent, fix_order, fix_l2stop, fix_prune, fix_ghost); "repaired" = v11111,
+# "head" = v10110 = /repo HEAD.  Two findings are not repaired in /repo: o (provider calls sent from unordered goroutines;
+# no patch) and g (a late Accounting-Response re-creates the checkpoint of a released session;
+# fixes/C09_no_ghost_checkpoint.patch).  Everything else is fixed in /repo (7e92d8e, e0693a6, d70a5ae, 9b87063, d95fed1,
+# 7faf7f9): a regression to any of those matches no variant and is reported as a VIOLATION.
+VARIANTS = ["repaired", "v10111", "v11110", "head"]
+FLAGS = {"repaired": "", "v10111": "o", "v11110": "g", "head": "og"}
+SIG = {"o": "start-stop-interim-sent-from-unordered-goroutines",
+       "g": "late-accounting-response-recreates-checkpoint-of-released-session"}
 # the model driver receives the implementation's line: for a session whose uint64 cumulative has wrapped (outside the
 # property's domain) the implementation's counter VALUES are taken as they are from that operation on (ocaml: mask_line)
 MODEL_NEEDS_IMPL = True
-FLAGS = {"repaired": "", "head": "o"}
-SIG = {"o": "start-stop-interim-sent-from-unordered-goroutines"}
 RULE = ("One case = one history of the real AAA component with 1-4 sessions (two of them share an interim bucket; 6% of "
         "the histories have 5-7 sessions crowded in one bucket, with releases between ticks); "
         "IPoE, PPPoE and l2gw payloads; l2gw sessions read the l2gw stats segment - access and handoff entry - on a tick, "
@@ -361,10 +364,20 @@ def gen_inflight(rng):
     ops.append("H,I")
     j = rng.randrange(k)
     pl.evolve()
-    ops.append("T,%d,%d,%s" % (sess[j][1], rng.choice([0, 0, 0, 1 << j]), snap_tok(pl.snapshot())))
+    released_j = False
+    fmask = rng.choice([0, 0, 0, 1 << j])
+    ops.append("T,%d,%d,%s" % (sess[j][1], fmask, snap_tok(pl.snapshot())))
     for _ in range(rng.choice([1, 1, 2, 3])):
         x = rng.randrange(k)
         r = rng.random()
+        if x == j and released_j and 0.55 <= r < 0.9:
+            # the model keeps ONE detached object per session: after the release of the session whose Interim is
+            # unanswered it is not announced again before the response is delivered
+            r = 0.95
+        if fmask and r >= 0.55:
+            # a FAILED late response checkpoints the cached entry as it is then; the model wrote that checkpoint at send
+            # time, so the entry must not be re-announced (interface renumbered) in between
+            r = 0.95
         if r < 0.55:
             m = rng.random()
             if m < 0.4:
@@ -373,6 +386,7 @@ def gen_inflight(rng):
                 pl.evolve()
                 sn = snap_tok(pl.snapshot())
             ops.append("X,%d,%s" % (x, sn))
+            released_j = released_j or x == j
         elif r < 0.75:
             ops.append("A,%d,%d,%d" % (x, ifx[x], rng.choice(IFX)))
         elif r < 0.9:
@@ -386,6 +400,21 @@ def gen_inflight(rng):
         x = rng.randrange(k)
         ops.append(rng.choice(["T,%d,0,%s" % (sess[x][1], snap_tok(pl.snapshot())), "A,%d,%d,%d" % (x, ifx[x], ifx[x]),
                                "X,%d,%s" % (x, rng.choice(["e", snap_tok(pl.snapshot())]))]))
+    # after the late response: a restart, then what the checkpoints left behind lead to (restore, prune, repeated release)
+    if rng.random() < 0.45:
+        ops.append("B")
+        for _ in range(rng.choice([1, 2, 3])):
+            x = rng.randrange(k)
+            r = rng.random()
+            if r < 0.35:
+                ops.append("P,1")
+            elif r < 0.6:
+                ops.append("X,%d,e" % x)
+            elif r < 0.8:
+                ops.append("R,%d,%d,%d" % (x, ifx[x], rng.choice(IFX)))
+            else:
+                pl.evolve()
+                ops.append("T,%d,0,%s" % (sess[x][1], snap_tok(pl.snapshot())))
     return " ".join(head + ops)
 
 
@@ -491,7 +520,9 @@ def gen_cases(rng, tier, budget):
               "S 1 s7:7:i A,0,5 T,7,0,5:500000:1:1:1 H,I T,7,1,5:1500000:2:2:2 X,0,5:7:7:7:7 U",
               "S 1 s7:7:i R,0,5 H,I T,7,0,5:1500000:2:2:2 X,0,- U H,- A,0,5 T,7,0,5:3:3:3:3 X,0,e",
               "S 1 s7:7:i A,0,5 H,I T,7,0,5:1500000:2:2:2 U H,- T,7,0,e X,0,e"]
-    for i in range(150 if tier == "quick" else 2500):
+    cases += ["S 1 s7:7:i A,0,5 H,I T,7,0,5:100:1:1:1 X,0,e U H,- B P,1", "S 1 s7:7:i A,0,5 H,I T,7,1,5:100:1:1:1 X,0,e U H,- B X,0,e",
+              "S 1 s7:7:i A,0,5 H,I T,7,0,5:100:1:1:1 X,0,5:300:3:3:3 U", "S 1 s7:7:i A,0,5 H,I T,7,0,5:100:1:1:1 X,0,e A,0,6 U H,- T,7,0,6:5:5:5:5"]
+    for i in range(220 if tier == "quick" else 3500):
         cases.append(gen_inflight(rng))
     # wire part
     g = 2 ** 32
@@ -755,7 +786,7 @@ def distribution(cases, impl):
                 if bt == "0":
                     # excuse: P = dropped by an orphan prune (known finding), D = a Start was held back (known finding),
                     # otherwise W = a uint64 cumulative wrapped (the model marks anything else UNEXCUSED = VIOLATION)
-                    e = "P" if "P" in exc else "D" if "D" in exc else "W"
+                    e = "G" if "G" in exc else "P" if "P" in exc else "D" if "D" in exc else "W"
                     z = d.setdefault("verdict_bits_zero_by_bit_and_excuse", {})
                     z[nm + ":" + e] = z.get(nm + ":" + e, 0) + 1
     return d
